@@ -234,11 +234,15 @@ package keeper
 //@ loop 1: invariant voteOf(Store_feeds, voter) == msg.Signals
 //@ loop 1: invariant forall q Str :: has(signalIDToPowerDiff, q) ==> (exists j :: 0 <= j && j < len(keys) && keys[j] == q)
 
-// resetting prices deletes price records only (iterator loop over the price prefix: body not verified)
+// resetting prices deletes price records only, and ALL of them (prefix-iterator delete loop: verified body)
 //@ func (k Keeper) DeleteAllPrices
-//@ trusted
 //@ modifies Store_feeds
 //@ ensures forall q Bz :: !iskey(types.PriceStoreKey, q) ==> Store_feeds[q] == old(Store_feeds)[q]
+//@ ensures forall id Str :: !has(Store_feeds, types.PriceStoreKey(id))
+//@ loop 0: invariant 0 <= itpos(iterator) && itpos(iterator) <= itlen(iterator)
+//@ loop 0: invariant forall q Bz :: !hasprefix(q, types.PriceStoreKeyPrefix) ==> Store_feeds[q] == old(Store_feeds)[q]
+//@ loop 0: invariant forall q Bz :: Store_feeds[q] == old(Store_feeds)[q] || !has(Store_feeds, q)
+//@ loop 0: invariant forall j :: 0 <= j && j < itpos(iterator) ==> !has(Store_feeds, itkey(iterator, j))
 
 // ---- C02: the only writer of the parameter record stores validated parameters only --------------------------------
 //@ func (k Keeper) SetParams
